@@ -88,6 +88,7 @@ type shareState struct {
 	finalCount map[string]int
 	// what the application was told: every callback result per member|tp,
 	// the successful FlushAcks per member, and the polls per tp|offset
+	sentBy       map[string]map[int64][]int8 // member|tp -> offset -> acknowledgement types the member sent
 	drainFetches map[int32]int // successful ShareFetch answers to the drain member, per broker
 	cbLog        map[string][]shCb
 	flushes      map[string][]shFlush
@@ -136,6 +137,20 @@ func (st *shareState) onReq(r *WireReq) {
 		st.checkBatches(where, r.Conn.Client, tp, firsts, lasts, types)
 		for i := range firsts {
 			out = append(out, shPending{member: r.Conn.Client, tp: tp, first: firsts[i], last: lasts[i], types: types[i]})
+			// what the member sent, whatever the broker makes of it
+			st.mu.Lock()
+			k := r.Conn.Client + "|" + tp
+			if st.sentBy[k] == nil {
+				st.sentBy[k] = map[int64][]int8{}
+			}
+			for o := firsts[i]; o <= lasts[i] && o-firsts[i] < 10000; o++ {
+				t := types[i][0]
+				if int(o-firsts[i]) < len(types[i]) {
+					t = types[i][o-firsts[i]]
+				}
+				st.sentBy[k][o] = append(st.sentBy[k][o], t)
+			}
+			st.mu.Unlock()
 		}
 	}
 	switch q := r.Req.(type) {
@@ -557,7 +572,7 @@ func scenShare(s *Sim) {
 	}
 	s.StartCluster(nb, kfake.SeedTopics(nparts, "t0"), kfake.BrokerConfigs(cfgs))
 	st := &shareState{s: s, acq: map[string]map[int64]*shAcq{}, pend: map[string][]shPending{}, appliedBy: map[string]map[int64][]int8{},
-		drainFetches: map[int32]int{}, cbLog: map[string][]shCb{}, flushes: map[string][]shFlush{}, byOff: map[string][]*shPolled{},
+		sentBy: map[string]map[int64][]int8{}, drainFetches: map[int32]int{}, cbLog: map[string][]shCb{}, flushes: map[string][]shFlush{}, byOff: map[string][]*shPolled{},
 		ackIssued: map[string]uint64{}, cbSeen: map[string]uint64{}, cbErr: map[string]int{}, members: map[string]string{}, disturbed: map[string]bool{}, accepted: map[string]map[int64]bool{}, maybeFinal: map[string]map[int64]bool{}, byKey: map[string]*shPolled{}, acqCount: map[string]int{}, finalCount: map[string]int{}}
 	s.OnReq = append(s.OnReq, st.onReq)
 	s.OnProcessed = append(s.OnProcessed, st.onProcessed)
@@ -824,7 +839,10 @@ func scenShare(s *Sim) {
 		if pr.appFinal || pr.member == "drain" || faulted || st.cbErr[pr.member+"|"+pr.tp] > 0 {
 			continue
 		}
-		ts := st.appliedBy[pr.member+"|"+pr.tp][pr.off]
+		// judged on what the member SENT: an acquisition lock that ran out
+		// before a slow member's next poll makes the broker ignore or refuse
+		// the accept, which is not the client's doing
+		ts := st.sentBy[pr.member+"|"+pr.tp][pr.off]
 		want := int8(1)
 		what := "accepted at the next poll"
 		if pr.pollIdx == lastPoll[pr.member] {
@@ -839,7 +857,7 @@ func scenShare(s *Sim) {
 			}
 		}
 		if !ok {
-			s.Violf("C12/unacked/not-finalised", "record %s (%s offset %d, delivery %d), polled by %s in its poll #%d and left without a final status by the application (renewed: %v), was not %s: final outcomes the broker applied for it from this member: %v", pr.val, pr.tp, pr.off, pr.delivery, pr.member, pr.pollIdx, pr.appRenew, what, ts)
+			s.Violf("C12/unacked/not-finalised", "record %s (%s offset %d, delivery %d), polled by %s in its poll #%d and left without a final status by the application (renewed: %v), was not %s: acknowledgement types this member sent for it: %v", pr.val, pr.tp, pr.off, pr.delivery, pr.member, pr.pollIdx, pr.appRenew, what, ts)
 		}
 		s.Count("unacked_records_judged", 1)
 	}
